@@ -960,7 +960,34 @@ def c19a(chk, rows):
         if h is None:
             continue
         unit = [h] + prog.closures_of(h.path)
-        fi = an.calls(h, FI)
+
+        def dim_guarded(fn_, fb_):
+            """the block fb_ of fn_ is reached only on the equal edge of `index.len() == / != self.dimensions()`"""
+            for sb, st in fn_.switches():
+                s_ = an.switch_subject(fn_, sb)
+                d_ = fn_.single_def(s_["root"]) if s_["kind"] == "value" and s_["root"] is not None else None
+                if d_ and d_[0] == "assign" and d_[3]["k"] == "binop" and d_[3]["op"] in ("Eq", "Ne"):
+                    ds_ = [fn_.single_def(fn_.copy_root(op_local(d_[3][x]))) if op_local(d_[3][x]) is not None else None for x in ("l", "r")]
+                    nms = sorted(callee_name(x[2]["callee"]).split("::")[-1] if x and x[0] == "call" else ("len" if x and x[0] == "assign" and x[3]["k"] in ("len", "unop") else "?") for x in ds_)
+                    if nms == ["dimensions", "len"]:
+                        eq = st["otherwise"] if d_[3]["op"] == "Eq" else an.edge_target(st, 0)
+                        if an.dominated_by_edge(fn_, sb, eq, fb_):
+                            return True
+            return False
+
+        # where the flat position comes from: Strides::flat_index called here (then the length test is here too), or a workspace helper
+        # that returns Strides::flat_index's answer under that test (a shared `fn flat_index(&self, index) -> Option<usize>`)
+        fi = [(b, t, "direct") for b, t in an.calls(h, FI)]
+        for b, t in h.calls():
+            if not t["callee"].get("local") or callee_is(t["callee"], FI):
+                continue
+            tg = [g_ for g_ in prog.call_targets(h, t) if g_.kind != "Closure" and not g_.derived]
+            if len(tg) == 1 and (t.get("dest_ty") or "").startswith("core::option::Option<usize>"):
+                g_ = tg[0]
+                inner = an.calls(g_, FI)
+                if len(inner) == 1 and dim_guarded(g_, inner[0][0]) and not [x for x in g_.calls() if x[0] != inner[0][0] and (x[1]["callee"].get("path") or "").startswith("core::slice::<impl [T]>::get")]:
+                    chk.fns_analysed.add(g_.path)
+                    fi.append((b, t, "via " + g_.path.split("::")[-1]))
         reads = []
         for u in unit:
             for b, t in u.calls():
@@ -975,25 +1002,16 @@ def c19a(chk, rows):
         ok = False
         why = "expected one flat_index call and one read of the data, found %d / %d" % (len(fi), len(reads))
         if len(fi) == 1 and len(reads) == 1:
-            fb = fi[0][0]
+            fb, ft, how = fi[0]
             u, rb = reads[0]
             # the read happens in flat_index's continuation: in a closure handed to a combinator on its result, or in a block the call dominates
-            after = (u is not h) or (h.dominates(fb, rb) and fb != rb)
+            after = (u is not h) or (an.dominates_on_feasible_paths(h, fb, rb) and fb != rb)
             if u is not h:
                 mk = [b for b, i, p, rv, s_ in h.assigns() if rv["k"] == "aggregate" and rv.get("akind") == "closure" and rv.get("closure") == u.path]
-                after = bool(mk) and all(h.dominates(fb, b) for b in mk)
-            dim = False
-            for sb, st in h.switches():
-                s_ = an.switch_subject(h, sb)
-                d_ = h.single_def(s_["root"]) if s_["kind"] == "value" and s_["root"] is not None else None
-                if d_ and d_[0] == "assign" and d_[3]["k"] == "binop" and d_[3]["op"] in ("Eq", "Ne"):
-                    ds_ = [h.single_def(h.copy_root(op_local(d_[3][x]))) if op_local(d_[3][x]) is not None else None for x in ("l", "r")]
-                    nms = sorted(callee_name(x[2]["callee"]).split("::")[-1] if x and x[0] == "call" else ("len" if x and x[0] == "assign" and x[3]["k"] in ("len", "unop") else "?") for x in ds_)
-                    if nms == ["dimensions", "len"]:
-                        eq = st["otherwise"] if d_[3]["op"] == "Eq" else an.edge_target(st, 0)
-                        dim = dim or an.dominated_by_edge(h, sb, eq, fb)
+                after = bool(mk) and all(an.dominates_on_feasible_paths(h, fb, b) for b in mk)
+            dim = True if how != "direct" else dim_guarded(h, fb)
             ok = after and dim
-            why = "data read in the continuation of flat_index=%s, flat_index under `index.len() == dimensions()`=%s" % (after, dim)
+            why = "flat index obtained %s; data read in its continuation=%s; under `index.len() == dimensions()`=%s" % (how, after, dim)
         chk.ob("C19.a", "Array::%s/element-read-only-at-flat_index(index)-of-a-full-length-index" % nm, ok, h.loc(), why)
     g = chk.fn(ARR + "shape::strides::Strides::flat_index")
     if g is not None:
